@@ -186,6 +186,7 @@ public:
             step++; g_run.tick(); std::string k = op.gets("k"); std::string err; bool handled = false;
             if (c14) { size_t before = viewOps; err = vs.run(op, k, handled, forbidden, viewOps); if (viewOps > before && mutated > 0) viewOpsAfterMutation++; }
             if (!handled) err = runOp(w, op, k, forbidden, mutated);
+            g_run.ev(k.c_str(), w.slots.size(), (forbidden << 40) ^ (mutated << 20) ^ viewOps);      // event log: what ran and how it ended (refused / mutated / observed), for the same-plan-twice gate
             if (getenv("DOMSIM_TRACE")) { std::function<std::string(Node*)> dump = [&](Node* n) { std::string s = "#" + std::to_string(n->id) + ":" + (n->type == refdom::ELEMENT ? n8(n->name) : n->type == refdom::TEXT ? "T" : n->type == refdom::COMMENT ? "C" : n->type == refdom::DOCUMENT ? "DOC" : n->type == refdom::FRAGMENT ? "FRAG" : "t" + std::to_string(n->type)); if (!n->kids.empty()) { s += "["; for (auto kk : n->kids) s += dump(kk) + " "; s += "]"; } return s; }; std::string all; for (auto& s : w.slots) if (!s.dead && !s.r->parent && !s.r->ownerElement && (s.r->type == refdom::DOCUMENT || !s.r->kids.empty())) all += dump(s.r) + "  "; fprintf(stderr, "TREE  %s\n", all.c_str()); }
             if (!err.empty()) { size_t bar = err.find('|'); o.violated = true; o.cls = err.substr(0, bar); o.detail = "step " + std::to_string(step) + " (" + k + "): " + (bar == std::string::npos ? "" : err.substr(bar + 1)); break; }
             Checker ck(w); if (!ck.all()) { o.violated = true; o.cls = ck.cls; o.detail = "after step " + std::to_string(step) + " (" + k + "): " + ck.detail; break; }
@@ -239,13 +240,13 @@ private:
             if (R && !A->r->kids.empty() && (op.geti("c") & 1)) { Node* kid = A->r->kids[(size_t)op.geti("c") % A->r->kids.size()]; R = &w.slots[w.byR[kid]]; }     // half of the time a genuine child as reference
             if (R && R->r == B->r) return "";       // insertBefore(x, x): the specification calls it implementation dependent
             if (A->r->type == refdom::ATTRIBUTE) return "";      // children of attributes are not modelled
-            v = w.m.checkInsert(A->r, B->r, R ? R->r : nullptr);
+            v = w.m.checkInsert(A->r, B->r, R ? R->r : nullptr); if (v.open) return "";
             TRY(if (k == "appendChild") A->x->appendChild(B->x); else A->x->insertBefore(B->x, R ? R->x : nullptr));
             std::string e = outcome(k.c_str()); if (!e.empty() || !v.ok()) return e; w.m.doInsert(A->r, B->r, R ? R->r : nullptr); mutated++; return ""; }
         if (k == "removeChild") { if (!A || !B) return ""; Slot* ch = B; if (!A->r->kids.empty() && flag) ch = &w.slots[w.byR[A->r->kids[(size_t)op.geti("b") % A->r->kids.size()]]]; if (A->r->type == refdom::ATTRIBUTE) return "";
             if (ch->r->parent != A->r) v.add(refdom::NOT_FOUND_ERR); if (A->r->readOnly) v.add(refdom::NO_MODIFICATION_ALLOWED_ERR); TRY(A->x->removeChild(ch->x)); std::string e = outcome("removeChild"); if (!e.empty() || !v.ok()) return e; w.m.removeNode(ch->r); mutated++; return ""; }
         if (k == "replaceChild") { if (!A || !B || !C) return ""; Slot* old = C; if (!A->r->kids.empty() && flag) old = &w.slots[w.byR[A->r->kids[(size_t)op.geti("c") % A->r->kids.size()]]]; if (A->r->type == refdom::ATTRIBUTE) return ""; if (old->r == B->r) return "";
-            Verdict pre; if (old->r->parent != A->r) pre.add(refdom::NOT_FOUND_ERR); if (A->r->readOnly) pre.add(refdom::NO_MODIFICATION_ALLOWED_ERR); Verdict c2 = w.m.checkInsert(A->r, B->r, nullptr, old->r->parent == A->r ? old->r : nullptr); for (int x : c2.errs) pre.add(x); if (!pre.ok()) { for (int x : c2.refusal) pre.add(x); } else pre.refusal = c2.refusal; v = pre;
+            Verdict pre; if (old->r->parent != A->r) pre.add(refdom::NOT_FOUND_ERR); if (A->r->readOnly) pre.add(refdom::NO_MODIFICATION_ALLOWED_ERR); Verdict c2 = w.m.checkInsert(A->r, B->r, nullptr, old->r->parent == A->r ? old->r : nullptr); if (c2.open) return ""; for (int x : c2.errs) pre.add(x); if (!pre.ok()) { for (int x : c2.refusal) pre.add(x); } else pre.refusal = c2.refusal; v = pre;
             TRY(A->x->replaceChild(B->x, old->x)); std::string e = outcome("replaceChild"); if (!e.empty() || !v.ok()) return e; w.m.replaceChild(A->r, B->r, old->r); mutated++; return ""; }
         if (k == "cloneNode") { if (!A) return ""; if (A->r->type == refdom::DOCUMENT) return ""; DOMNode* x = nullptr; TRY(x = A->x->cloneNode(flag)); std::string e = outcome("cloneNode"); if (!e.empty()) return e; Node* r = w.m.cloneRec(A->r, A->r->doc, flag); std::string why; if (!w.addSubtree(r, x, why)) return "dom:clone-shape|cloneNode(" + std::string(flag ? "deep" : "shallow") + ") result differs from the reference: " + why; return ""; }
         if (k == "importNode") { if (!A) return ""; if (A->r->type == refdom::DOCUMENT || A->r->type == refdom::DOCUMENT_TYPE) { v.add(refdom::NOT_SUPPORTED_ERR); } DOMNode* x = nullptr; TRY(x = xd->importNode(A->x, flag)); std::string e = outcome("importNode"); if (!e.empty() || !v.ok()) return e; Node* r = w.m.cloneRec(A->r, rd, flag); std::string why; if (!w.addSubtree(r, x, why)) return "dom:import-shape|importNode result differs from the reference: " + why; return ""; }
